@@ -519,7 +519,10 @@ def monitorOp (mu : Mon) (prev : Args) (toks : List String) (implOk : Bool) (out
             -- an expiry that has already passed is refused (a decrease that removes the entry ignores it)
             (if e.isExpired mu.blk && (kind == "increase_allowance" || amt < old.amount) then
               [mk "C02" "C02/expired-expiry-accepted" s!"requested={e.render} by {kind}"] else [])
-          | none => []
+          | none =>
+            -- no expiry named: the deadline the owner set earlier stays (an entry that existed and still exists)
+            if old.amount != 0 && new.amount != 0 && new.expires != old.expires then
+              [mk "C02" "C02/expiry-changed-without-request" s!"{old.expires.render}->{new.expires.render} by {kind} without expires"] else []
         else []
       -- notifications
       let msgs := out.str "msgs"
